@@ -69,6 +69,13 @@ def replay(chk, behs, rng):
         for step, e in enumerate(b):
             pts, src = e["pts"], e["src"]
             mode = (bi + step) % 3
+            if bi % 2:
+                # "points by velocity in any unit": whatever the preferred units are when the points and the model are built
+                # (they change from step to step; every argument carries its unit)
+                m.PreferredUnits.velocity = UA.unit_enum(vel_units[(bi // 2 + step) % 5])
+                m.PreferredUnits.weight = [U.Grain, U.Gram, U.Pound][(bi // 2 + step) % 3]
+                m.PreferredUnits.diameter = [U.Inch, U.Millimeter, U.Centimeter][(bi // 2 + step + 1) % 3]
+                chk.stratum("preferred_units_changed_between_builds")
             bcps = []
             tol = 1e-9
             for bc100, p2 in pts:
@@ -190,7 +197,7 @@ def run(chk: core.Check, replay_path=None, **_):
     single_equals_plain(chk, rng)
     shipped_heap(chk, rng)
     chk.sample({"history": behs[len(behs) // 2]})
-    chk.require_strata(["build_from_standard", "build_from_other-model", "table_as_dicts", "table_as_datapoints", "single_point",
+    chk.require_strata(["preferred_units_changed_between_builds", "build_from_standard", "build_from_other-model", "table_as_dicts", "table_as_datapoints", "single_point",
                         "single_equals_plain", "shipped_heap"])
     chk.rule.append("every build history of %d builds over 9 point lists (1-3 points, several orders, on and between nodes) x source "
                     "(standard table as dicts / caller-owned data points / another model's table by reference), points by Mach or by "
